@@ -172,6 +172,11 @@ def run(ctx):
                  "TEXT property value through to_ical and from_ical",
                  tp.parts.loc(tp.parts_ret), n_other=n_other)
 
+    # ---- WIRE-MODEL: the whole wire path, bounded (E9) -------------------------------
+    from .. import strmodel
+    strmodel.report(ctx, "C07/WIRE-MODEL", strmodel.explore_wire, strmodel.WIRE_LAWS,
+                    tp.parts.loc(), 300)
+
     # ---- FST-LIST ----------------------------------------------------------
     vc = m.cls("prop.vCategory")
     to_i = vc.methods.get("to_ical")
@@ -242,8 +247,9 @@ def run(ctx):
     if split_first:
         ctx.note("vCategory.from_ical splits before unescaping: list-level "
                  "model for that order is not built; K3 factors would no longer apply")
-        raise AnalysisError("vCategory.from_ical: split-before-unescape form "
-                            "not modelled yet")
+        ctx.note("C07/FST-LIST not applicable to this form of vCategory.from_ical; the list "
+                 "codec is decided by C07/WIRE-MODEL (bounded) only")
+        return
     ctx.check(splitter == joiner, "C07/FST-LIST", "list separator agreement",
               f"writer joins items with {joiner!r}, reader splits on {splitter!r}",
               fr_i.loc(), detail=repr(joiner))
